@@ -20,6 +20,8 @@ import (
 	"go/token"
 	"go/types"
 	"strings"
+
+	"golang.org/x/tools/go/ssa"
 )
 
 type guardChecker struct {
@@ -306,6 +308,20 @@ func (g *guardChecker) presenceOnly(e ast.Expr, fd *ast.FuncDecl, depth int, sco
 			}
 			if b, ok := tx.(*types.Basic); ok && b.Kind() == types.UntypedNil {
 				return true, ""
+			}
+			// a character of already formatted text compared with a constant (re-indenting, splitting lines): no
+			// field of the configuration is a rune, so this is layout, not a directive's content
+			isRuneT := func(t types.Type) bool {
+				b, ok := t.(*types.Basic)
+				return ok && (b.Kind() == types.Int32 || b.Kind() == types.UntypedRune)
+			}
+			if isRuneT(tx) && isRuneT(ty) {
+				if tv, ok := info.Types[x.Y]; ok && tv.Value != nil {
+					return true, ""
+				}
+				if tv, ok := info.Types[x.X]; ok && tv.Value != nil {
+					return true, ""
+				}
 			}
 			if isIntType(tx) && isIntType(ty) {
 				if g.intFree(x.X, fd, depth+1) && g.intFree(x.Y, fd, depth+1) {
@@ -596,4 +612,57 @@ func checkFormatterWithholdsNothing(c *Ctx, m *cfgModel, fmtFns, compFns map[*ty
 	}
 	c.Count("formatter conditions that decide whether something is written", nGuards)
 	c.Floor(rule, "formatter conditions that decide whether something is written", nGuards, 150)
+}
+
+// C19.R9 — the formatter writes every character it was given: no conversion in the code reachable from the formatter
+// narrows a rune to a byte (which keeps the low byte of every non-ASCII code point: the text still parses, with other
+// names and secrets in it), unless a dominating test has established that the rune is ASCII.
+func checkNoRuneNarrowing(c *Ctx, rule string) {
+	p := c.P
+	root := p.funcOrig("config", "Format")
+	if root == nil {
+		c.Fail(rule, "anchor:config.Format", "", "anchor not found")
+		return
+	}
+	nFn, nConv := 0, 0
+	for fn := range p.Reach(root) {
+		if fn.Pkg == nil || fn.Pkg.Pkg.Path() != pkgPath("config") {
+			continue
+		}
+		nFn++
+		for _, b := range fn.Blocks {
+			for _, ins := range b.Instrs {
+				cv, ok := ins.(*ssa.Convert)
+				if !ok {
+					continue
+				}
+				from, ok1 := cv.X.Type().Underlying().(*types.Basic)
+				to, ok2 := cv.Type().Underlying().(*types.Basic)
+				if !ok1 || !ok2 || from.Kind() != types.Int32 || (to.Kind() != types.Uint8 && to.Kind() != types.Int8) {
+					continue
+				}
+				if _, isC := cv.X.(*ssa.Const); isC {
+					continue
+				}
+				nConv++
+				ascii := false
+				for _, pc := range dominatingConds(b, nil) {
+					a := condAtom(pc.Cond, pc.Val)
+					if stripConv(a.X) != stripConv(cv.X) {
+						continue
+					}
+					if n, isN := intConst(a.Y); isN && ((a.Op == token.LSS && n <= 128) || (a.Op == token.LEQ && n <= 127)) {
+						ascii = true
+					}
+				}
+				c.Check(ascii, rule, fmt.Sprintf("config.%s:rune narrowed to a byte #%d only when ASCII", fn.Name(), nConv), p.InstrPos(cv),
+					"behind a test that the rune is below 0x80",
+					"the formatter path converts a rune to a byte without knowing it is ASCII: every non-ASCII character of a value (a user name, a password, a path) is replaced by its low byte — the rewritten file still parses and compiles, to a different configuration")
+			}
+		}
+	}
+	if nConv == 0 {
+		c.Ok(rule, "config:no rune is narrowed to a byte on the formatter path", p.Pos(root.Pos()), fmt.Sprintf("%d functions reachable from Format inspected, no rune→byte conversion", nFn))
+	}
+	c.Floor(rule, "formatter functions inspected", nFn, 10)
 }
